@@ -18,13 +18,22 @@
   clauses hold for every history, hazards included: `value_in_range_monotone` about the exact
   value of the linear map, `emitted_int_in_range_monotone` / `emitted_float_in_range_monotone`
   about the value that is actually sent (after the rounding to `float` and, for an `i` port,
-  the truncation to `int`).  An `i` port needs INTEGRAL bounds for that
+  the truncation to `int`), `emitted_float_bits_in_range_monotone` / `emitted_value_in_range_monotone`
+  about the emitted argument itself (the `int`, or the 32 bits of the `float` read back as an
+  IEEE-754 binary32).  An `i` port needs INTEGRAL bounds for that
   (`int_port_fractional_bound_counterexample`).
+
+  The system-level numeric clause — WHICH 14-bit value is sent — is `emits_composed_value_partial`
+  (hazard-free histories; `emits_composed_value_counterexample` with a K2 hazard): one message per
+  value, composed from the incoming value and the LAST value (`lastVals`, a function of the history)
+  of the controller bound to the other half of the same address, in range, monotone.
 -/
 import RtoscModel.Proofs.MidiClauses
 import RtoscModel.Proofs.MidiRound
 import RtoscModel.Proofs.MidiRing
 import RtoscModel.Proofs.MidiClone
+import RtoscModel.Proofs.MidiExtEmit
+import RtoscModel.Proofs.MidiExtRun
 set_option linter.unusedSimpArgs false
 namespace Rtosc.Midi
 
@@ -62,9 +71,8 @@ theorem other_steps_silent {P s op s' out} (h : step P s op = some (s', out))
     `emitted_float_in_range_monotone` below carry range and monotonicity over to the value
     that is sent; the special case of an `i` port with range 0..127 is
     `special_case_in_range_monotone`.  `o` is the other half of the value slot as the realtime
-    half holds it; that it is the last value of the address's OTHER controller is shown at the
-    storage level only (`fine_composes_14bit`), across a `midi-bind` (`cloneValues`) it is
-    covered by the correspondence run and the oracle. -/
+    half holds it; that it is the last value of the address's OTHER controller is
+    `emits_composed_value_partial` (hazard-free histories). -/
 theorem value_in_range_monotone {P s} (r : Reach P s) {id val s' m} (hv : val ≤ 127)
     (h : step P s (.cc id val) = some (s', [m])) :
     ∃ p k o, P[m.addr]? = some p ∧ s.rt.binding id = some (m.addr, k) ∧ o < 128 ∧
@@ -142,8 +150,9 @@ theorem int_port_fractional_bound_counterexample :
     that pair denotes `rnd |num| / 2^17` (`f32Round_value`), `rnd` being round-to-nearest-even to
     24 significant bits.  The rounded value `rndZ num / 2^17` lies in `[min8/8, max8/8]` (both
     ends are themselves `float`s) and does not decrease when `x` grows — for EVERY range the
-    protocol can spell (`|min8|, |max8| ≤ 2^23`).  (That the 32 bits printed are the IEEE-754
-    encoding of that sign/significand/exponent is tied to the code by the correspondence run.) -/
+    protocol can spell (`|min8|, |max8| ≤ 2^23`).  (That the 32 bits sent are the IEEE-754
+    encoding of exactly this number: `float_bits_denote_rounded_value`; the clause restated on the
+    bit pattern: `emitted_float_bits_in_range_monotone`.) -/
 theorem emitted_float_in_range_monotone {mn mx : Int} (h : mn ≤ mx) (h1 : -8388608 ≤ mn) (h2 : mx ≤ 8388608)
     {x y : Nat} (hx : x < 16384) (_hy : y < 16384) (hxy : x ≤ y) :
     16384 * mn ≤ rndZ (bijNum mn mx x) ∧ rndZ (bijNum mn mx x) ≤ 16384 * mx ∧
@@ -154,6 +163,57 @@ theorem emitted_float_in_range_monotone {mn mx : Int} (h : mn ≤ mx) (h1 : -838
   obtain ⟨q1, q2⟩ := rndZ_range (num := bijNum mn mx x) (lo := mn) (hi := mx) (t := 14) (by omega) (by omega)
     (by omega)
   exact ⟨by omega, by omega, rndZ_mono (bijNum_mono h hxy)⟩
+
+/-- **float_bits_denote_rounded_value** — the packing step of the float path: the 32 bits
+    `f32OfDyadic num e` written into the message are a FINITE IEEE-754 binary32 pattern (`f32Finite`:
+    32 bits, exponent field not 255) and, read back field by field (`f32Scaled`: sign = bit 31, biased
+    exponent = bits 30..23, fraction = bits 22..0; the value times `2^149`), denote exactly
+    `rndZ num / 2^e`, the round-to-nearest-even of `num / 2^e` — for every numerator of at most 100 bits
+    and `e ≤ 125` (the linear map uses `e = 17` and at most 38 bits). -/
+theorem float_bits_denote_rounded_value {num : Int} {e : Nat} (he : e ≤ 125) (hl : bitLen num.natAbs ≤ 100) :
+    f32Scaled (f32OfDyadic num e) = rndZ num * 2 ^ (149 - e) ∧ f32Finite (f32OfDyadic num e) :=
+  f32OfDyadic_scaled he hl
+
+/-- **emitted_float_bits_in_range_monotone** — "whose value lies within the parameter's [min,max] and
+    grows monotonically with v", for the 32 BITS an `f` port is actually sent: for every range the
+    protocol can spell the message written for the 14-bit value `x` is `'f'`-typed, goes to the
+    callback's address, and its bit pattern is a finite binary32 whose exact value lies in
+    `[min8/8, max8/8]` (`f32Scaled` is the value times `2^149`, so the bounds are `min8 * 2^146`,
+    `max8 * 2^146`) and does not decrease when `x` grows. -/
+theorem emitted_float_bits_in_range_monotone {a : Nat} {mn mx : Int} (h : mn ≤ mx) (h1 : -8388608 ≤ mn)
+    (h2 : mx ≤ 8388608) {x y : Nat} (hx : x < 16384) (hy : y < 16384) (hxy : x ≤ y) :
+    ∃ bx bY : Nat, ((⟨a, false, mn, mx⟩ : Cb).fire x) = ⟨a, .flt bx⟩ ∧
+      ((⟨a, false, mn, mx⟩ : Cb).fire y) = ⟨a, .flt bY⟩ ∧ f32Finite bx ∧
+      mn * 2 ^ 146 ≤ f32Scaled bx ∧ f32Scaled bx ≤ mx * 2 ^ 146 ∧ f32Scaled bx ≤ f32Scaled bY := by
+  have hp : PortOk ⟨false, mn, mx⟩ := ⟨h, h1, h2, fun hh => by cases hh⟩
+  have hns : ¬((⟨a, false, mn, mx⟩ : Cb).min8 = 0 ∧ (⟨a, false, mn, mx⟩ : Cb).max8 = 127 * 8 ∧
+      (⟨a, false, mn, mx⟩ : Cb).isInt = true) := fun hh => by cases hh.2.2
+  have ex := fire_flt ⟨a, false, mn, mx⟩ x hns (by simp)
+  have ey := fire_flt ⟨a, false, mn, mx⟩ y hns (by simp)
+  obtain ⟨_, _, f1, f2, f3, f4⟩ := fire_in_range_monotone a hp hx hy hxy
+  simp only [portCb] at f1 f2 f3 f4
+  rw [ex] at f1 f2 f3 f4
+  rw [ey] at f4
+  exact ⟨_, _, ex, ey, f1, f2, f3, f4⟩
+
+/-- **emitted_value_in_range_monotone** — the same clause for EVERY port the property quantifies over
+    (`PortOk`: `min ≤ max`, multiples of 1/8 up to `2^20` in size, integral bounds for an `i` port; the
+    0..127 special case included), in one statement about the emitted argument (`Val.scaled`: the `int`,
+    or the `float` read back from its bits, times `2^149`): the message goes to the port's address, has
+    the port's type, is a finite number within `[min, max]`, and does not decrease when the 14-bit
+    value grows. -/
+theorem emitted_value_in_range_monotone (a : Nat) {p : PortSpec} (hp : PortOk p) {x y : Nat} (hx : x < 16384)
+    (hy : y < 16384) (hxy : x ≤ y) :
+    ((portCb a p).fire x).addr = a ∧ ((portCb a p).fire x).val.isInt = p.isInt ∧
+    ((portCb a p).fire x).val.finite ∧
+    p.min8 * 2 ^ 146 ≤ ((portCb a p).fire x).val.scaled ∧
+    ((portCb a p).fire x).val.scaled ≤ p.max8 * 2 ^ 146 ∧
+    ((portCb a p).fire x).val.scaled ≤ ((portCb a p).fire y).val.scaled :=
+  fire_in_range_monotone a hp hx hy hxy
+
+/-- value 12288 of 16384 on a port -1..1 sends the bits of 0.5 -/
+example : (⟨1, false, -8, 8⟩ : Cb).fire 12288 = ⟨1, .flt 0x3f000000⟩ ∧ f32Scaled 0x3f000000 = 2 ^ 148 := by decide
+example : exPorts.all (fun p => decide (PortOk p)) = true := by decide
 
 /-- **message_type_follows_port** — "(address, type, value)": the message a callback writes is
     `'i'`-typed exactly when `generateNewBijection` classified the port as `'i'`, … -/
@@ -619,8 +679,8 @@ theorem k2_trigger : triggerK1 exPorts k4Ops = false ∧ triggerK2 exPorts k4Ops
 
 /-! ## The other half of a 14-bit value across a `midi-bind` -/
 
-/-- the unrestricted form of `half_survives_bind` (neither proved nor refuted for histories with
-    hazards: after K2 two entries may own the same half of a slot) -/
+/-- the unrestricted form of `half_survives_bind` (false of the unchanged code after a K2 hazard, see
+    `half_survives_bind_counterexample`) -/
 def half_survives_bind_statement : Prop :=
   ∀ (P : List PortSpec) (h : List (Sys × Op)) (s : Sys), Trace P h s →
     ∀ ns ans rest old, s.toRT = .bind ns ans :: rest → s.rt.storage = some old →
@@ -643,6 +703,132 @@ theorem half_survives_bind_partial {P h s} (t : Trace P h s) (hf : HazardFree h)
       ∀ d ∈ ns.mapping, ∀ e ∈ old.mapping, d.id = e.id →
         ∃ sv, old.values[e.slot]? = some sv ∧ halfAt d.slot d.coarse ns'.values = some (half e.coarse sv) :=
   half_survives_bind t hf hq hold hz
+
+/-- `k2Ops` (controller 5 assigned to `p0` AND `p1`), then 5 says 100 (it drives `p0`), `p2` is queued
+    again and learned by controller 9; the `midi-bind` carrying that snapshot is about to be delivered -/
+def cxOps : List Op := k2Ops ++ [.cc 5 100, .map 2 true, .deliverRT, .cc 9 1, .deliverNRT]
+
+def cxState : Sys := ((run exPorts Sys.init cxOps).map (·.1)).getD Sys.init
+def cxOld : Storage := cxState.rt.storage.getD Storage.empty
+def cxNs : Storage := match cxState.toRT with | .bind ns _ :: _ => ns | _ => Storage.empty
+
+/-- **K2 refutes the unrestricted `half_survives_bind`**: after a K2 hazard one controller can have two
+    mapping entries; `cloneValues` then lets the LAST old entry of a controller win, so controller 5 —
+    bound to `p0` before and after the `midi-bind`, last value 100 — finds 0 in its half of `p0`'s value
+    slot: the next fine value for `p0` is composed with 0 instead of 100. -/
+theorem half_survives_bind_counterexample : ¬ half_survives_bind_statement := by
+  intro hst
+  have t := trace_of_concrete_run (ops := cxOps) (by decide) (by decide)
+  obtain ⟨s', ns', hstep, hst', _, hall⟩ := hst exPorts _ cxState t cxNs (some 9) [] cxOld (by decide) (by decide)
+  obtain ⟨sv, hsv, hh⟩ := hall ⟨5, true, 1⟩ (by decide) ⟨5, true, 1⟩ (by decide) rfl
+  have h1 : cxOld.values[1]? = some 12800 := by decide
+  have h2 : (step exPorts cxState .deliverRT).map (fun r => r.1.rt.storage.map (fun st => halfAt 1 true st.values)) =
+      some (some (some 0)) := by decide
+  rw [hstep] at h2
+  simp only [Option.map_some, hst', Option.some.injEq] at h2
+  simp only at hsv hh
+  rw [h1] at hsv; cases hsv
+  rw [h2] at hh
+  revert hh; decide
+
+/-- **half_survives_bind for every reachable state with well-formed snapshots** — the hypothesis the
+    counterexample violates, made explicit: in ANY reachable state (hazards allowed) in which the
+    delivered snapshot `ns` and the snapshot `old` the realtime half acts on have their slots inside
+    the vectors and pairwise distinct controller IDs (`StOk`) and no two entries of `ns` own the same
+    half of a slot (`PairInj`), the delivery does not crash and every controller bound before and after
+    keeps its 7-bit value.  (In `cxState`, `StOk cxOld` fails: controller 5 occurs twice.) -/
+theorem half_survives_bind_wellformed {P s} (r : Reach P s) {ns ans rest old}
+    (hq : s.toRT = .bind ns ans :: rest) (hold : s.rt.storage = some old)
+    (hns : StOk ns) (hok : StOk old) (hinj : PairInj ns.mapping) :
+    ∃ s' ns', step P s .deliverRT = some (s', []) ∧ s'.rt.storage = some ns' ∧ ns'.mapping = ns.mapping ∧
+      ∀ d ∈ ns.mapping, ∀ e ∈ old.mapping, d.id = e.id →
+        ∃ sv, old.values[e.slot]? = some sv ∧ halfAt d.slot d.coarse ns'.values = some (half e.coarse sv) :=
+  half_survives_bind_of_wellformed r hq hold hns hok hinj
+
+example : ¬ (ids cxOld.mapping).Nodup := by decide
+
+/-! ## End to end: which value a bound controller sends -/
+
+/-- the unrestricted form of `emits_composed_value` (false of the unchanged code after a K2 hazard, see
+    `emits_composed_value_counterexample`) -/
+def emits_composed_value_statement : Prop :=
+  ∀ (P : List PortSpec) (h : List (Sys × Op)) (s : Sys), (∀ p ∈ P, PortOk p) → Trace P h s →
+    ∀ id val s' out, val ≤ 127 → step P s (.cc id val) = some (s', out) → EmitsComposed P h s id val out
+
+/-- **emits_composed_value** (partial: hazard-free histories) — "from then on every value v it sends
+    produces exactly one message to that address whose value lies within the parameter's [min,max] and
+    grows monotonically with v (7-bit coarse, 14-bit when a fine controller has been learned for the
+    same address)", as ONE statement about every controller value of every hazard-free history, in
+    every delivery order (`Trace` quantifies over all interleavings of API calls and deliveries; the
+    theorem speaks about an arbitrary step of an arbitrary history, hence about the whole sequence of
+    backend messages).  `EmitsComposed P h s id val out`:
+    * a controller the realtime half has bound to nothing produces no message;
+    * a controller bound to `(a, k)` produces exactly one message: the one the port at `a` writes for
+      the 14-bit value with `val` in the controller's half (`k`: coarse = upper 7 bits, fine = lower)
+      and `o` in the other half, where `o = lastVals h id'` is the LAST value that the controller `id'`
+      bound to the other half of `a` sent while bound (0 if it sent none) — `lastVals` is a function of
+      the history alone: it survives every `midi-bind` (`cloneValues`, whatever slots the snapshots
+      assign) and every value of other controllers — and `o = 0` when no controller is bound to the
+      other half;
+    * for this fixed other half, the message written for any 7-bit value goes to `a`, has the port's
+      type, is a finite number inside `[min, max]` (as emitted: the `int`, or the `float` decoded from
+      its 32 bits) and does not decrease when the value grows. -/
+theorem emits_composed_value_partial {P : List PortSpec} {h s} (hP : ∀ p ∈ P, PortOk p) (t : Trace P h s)
+    (hf : HazardFree h) {id val s' out} (hv : val ≤ 127) (hs : step P s (.cc id val) = some (s', out)) :
+    EmitsComposed P h s id val out :=
+  emitsComposed_of_trace hP t hf hv hs
+
+/-- **run_emits_composed_values** — the same clause as a statement about the message SEQUENCE of a
+    whole history, in the vocabulary of the executable model that is compared with the code: for every
+    port table of well-formed ports and every list of well-formed steps (API calls, controller values,
+    deliveries in any order) on which neither trigger predicate fires, the run from the initial state
+    puts out exactly one list of backend messages per step; the list of a step that is not a controller
+    value is empty, and the list of step `i = cc id val` is what `EmitsComposed` says for the state `si`
+    and the history reached by the first `i` steps: none if `id` is bound to nothing, else exactly one
+    message, composed from `val` and the last value of the other half's controller, in range, of the
+    port's type, monotone in the value. -/
+theorem run_emits_composed_values {P : List PortSpec} {ops s outs} (hP : ∀ p ∈ P, PortOk p)
+    (hwf : ∀ op ∈ ops, op.wf P) (k1 : triggerK1 P ops = false) (k2 : triggerK2 P ops = false)
+    (hr : run P Sys.init ops = some (s, outs)) :
+    outs.length = ops.length ∧
+    ∀ i op, ops[i]? = some op →
+      ∃ si oi out, run P Sys.init (ops.take i) = some (si, oi) ∧ outs[i]? = some out ∧
+        StepEmits P (histOf P Sys.init (ops.take i)) si op out :=
+  run_stepEmits hP hwf k1 k2 hr
+
+/-- `k2Ops` (controller 5 assigned to `p0` AND `p1`), then 5 says 100 (it drives `p0`, coarse), then
+    controller 7 is learned as the FINE controller of `p0` -/
+def cyOps : List Op := k2Ops ++ [.cc 5 100, .map 0 false, .deliverRT, .cc 7 1, .deliverNRT, .deliverRT]
+
+def cyState : Sys := ((run exPorts Sys.init cyOps).map (·.1)).getD Sys.init
+
+/-- **K2 refutes the unrestricted `emits_composed_value`**: in `cyState` controller 5 is the coarse and
+    controller 7 the fine controller of `p0`, the last value of 5 is 100 — but the `midi-bind` that
+    brought controller 7 zeroed 5's half (5 has two mapping entries, `half_survives_bind_counterexample`):
+    the value 3 of controller 7 sends `(int)0` to `p0` (0..127: the upper seven bits) instead of 100. -/
+theorem emits_composed_value_counterexample : ¬ emits_composed_value_statement := by
+  intro hst
+  have t := trace_of_concrete_run (ops := cyOps) (by decide) (by decide)
+  cases hs : step exPorts cyState (.cc 7 3) with
+  | none => have : (step exPorts cyState (.cc 7 3)).isSome = true := by decide
+            simp [hs] at this
+  | some r =>
+    obtain ⟨_, h2⟩ := hst exPorts _ cyState (by decide) t 7 3 r.1 r.2 (by decide) hs
+    obtain ⟨p, o, hp, _, c1, _, hout, _⟩ := h2 0 false (by decide)
+    have ho : o = 100 := by
+      rw [c1 5 (by decide)]; decide
+    subst ho
+    have hp' : p = ⟨true, 0, 1016⟩ := by
+      have : exPorts[0]? = some ⟨true, 0, 1016⟩ := by decide
+      rw [this] at hp; exact (Option.some.inj hp).symm
+    subst hp'
+    have hact : (step exPorts cyState (.cc 7 3)).map (·.2) = some [⟨0, .int 0⟩] := by decide
+    rw [hs] at hact
+    simp only [Option.map_some, Option.some.injEq] at hact
+    rw [hact] at hout
+    revert hout; decide
+
+example : triggerK2 exPorts cyOps = true := by decide
 
 /-! ## Non-vacuity: concrete hazard-free histories meet the hypotheses -/
 
@@ -668,5 +854,16 @@ example : let ops := [Op.map 0 true, .deliverRT, .cc 5 1, .deliverNRT, .deliverR
     (match s.toRT with | .bind ns _ :: _ => ns.mapping.length == 2 | _ => false) = true ∧
     (s.rt.storage.map (fun st => st.values)) = some [77 * 128] ∧ hazard s .deliverRT = false ∧
     triggerK1 exPorts ops = false ∧ triggerK2 exPorts ops = false := by decide
+
+/-- the hypotheses of `emits_composed_value_partial` are met non-trivially: after the first 13 steps of
+    `okOps` (hazard-free) controller 5 is the coarse and 6 the fine controller of `p1`, 5's last value is
+    100 (sent before AND carried across two `midi-bind`s), and the value 3 of controller 6 sends the
+    `float` for `100·128 + 3` -/
+example : let ops := okOps.take 13
+    let s := ((run exPorts Sys.init ops).map (·.1)).getD Sys.init
+    hazardFree exPorts ops = true ∧ s.rt.binding 5 = some (1, true) ∧ s.rt.binding 6 = some (1, false) ∧
+    lastVals (histOf exPorts Sys.init ops) 5 = 100 ∧
+    (step exPorts s (.cc 6 3)).map (·.2) = some [(portCb 1 ⟨false, -8, 8⟩).fire (compose14 false 3 100)] := by
+  decide
 
 end Rtosc.Midi
